@@ -162,6 +162,14 @@ def call_ext(interp, st, name, args, kwargs, frame, node) -> List[Outcome]:
         if isinstance(v, TupleV) and all(isinstance(i, Const) for i in v.items):
             vals = [bool(i.value) for i in v.items]
             return ok(st, Const(any(vals) if short == "any" else all(vals)))
+        if isinstance(v, Ref) and isinstance(st.heap.get(v.addr), ListO):
+            # a comprehension over an unknown iterable: `rest` is the verdict of the representative element(s)
+            # decided on this path (the facts of this path say such an element exists)
+            lo = st.heap[v.addr]
+            parts = list(lo.items) + ([lo.rest] if lo.rest is not None else [])
+            if parts and all(isinstance(i, Const) for i in parts):
+                vals = [bool(i.value) for i in parts]
+                return ok(st, Const(any(vals) if short == "any" else all(vals)))
         return [Outcome("ok", s, Const(b)) for s, b in interp.decide(st, (short, site))]
     if name == "builtins.hash":
         outs = []
